@@ -1369,6 +1369,99 @@ Proof.
   - intros w' Hs. apply invU_refl; auto.
 Qed.
 
+(* ---- nth sessions ---- *)
+Section UNth.
+Context {V : Type}.
+Notation world := (world key V cstate).
+
+(* borrowing iterators: self is untouched *)
+Lemma stays_iter_nth_session (proj : key * V -> list N) pre nk :
+  stays (iter_nth_session proj pre nk).
+Proof.
+  intros w Hw. unfold iter_nth_session. apply wp_bind.
+  eapply wp_mono; [apply iter_spec; exact Hw | |]; cbn beta; [|intros w' Hs; exact Hs].
+  intros c w1 [Hs1 Hc]. subst c. apply wp_bind.
+  eapply wp_mono; [apply b_skip_spec; [rewrite Hs1; exact Hw | cbn [snd]; rewrite Hs1; lia] | |];
+    cbn beta; [|tauto].
+  intros c1 w2 [Hs2 Hc1]. assert (Hs2' : self w2 = self w) by congruence. rewrite Hs1 in Hc1.
+  apply wp_bind.
+  eapply wp_mono; [apply b_nth_spec; [rewrite Hs2'; exact Hw | rewrite Hs2'; exact Hc1] | |];
+    cbn beta; [|tauto].
+  intros [o c2] w3 (Hs3 & Hc2 & Ho). cbn [fst snd] in Hc2, Ho.
+  assert (Hs3' : self w3 = self w) by congruence. rewrite Hs2' in Hc2, Ho.
+  apply wp_bind.
+  eapply wp_mono; [apply r_slot_item_spec; [rewrite Hs3'; exact Hw | rewrite Hs3'; exact Ho] | |];
+    cbn beta; [|tauto].
+  intros r w4 Hs4. assert (Hs4' : self w4 = self w) by congruence.
+  apply wp_bind.
+  eapply wp_mono; [apply iter_next_bound; [rewrite Hs4'; exact Hw | rewrite Hs4'; exact Hc2] | |];
+    cbn beta; [|tauto].
+  intros [o2 c3] w5 (Hs5 & _ & Ho2). cbn [fst snd] in Ho2.
+  assert (Hs5' : self w5 = self w) by congruence. rewrite Hs4' in Ho2.
+  apply wp_bind.
+  eapply wp_mono; [apply r_slot_item_spec; [rewrite Hs5'; exact Hw | rewrite Hs5'; exact Ho2] | |];
+    cbn beta; [|tauto].
+  intros r2 w6 Hs6. apply wp_ret. congruence.
+Qed.
+
+(* drains: the register is left empty *)
+Lemma d_nth_Z (E : env key V query cstate) : forall n c (w : world),
+  DrainInv c (self w) ->
+  wp (d_nth E n c)
+     (fun r w' => DrainInv (snd r) (self w') /\ cap (self w') = cap (self w))
+     (zpost w) w.
+Proof.
+  induction n as [|n IH]; intros c w HD; cbn [d_nth].
+  - eapply wp_mono; [apply drain_next_spec; exact HD | |]; cbn beta; [|tauto].
+    intros r w1 (H1 & H2 & _). auto.
+  - apply wp_bind. eapply wp_mono; [apply drain_next_spec; exact HD | |]; cbn beta; [|tauto].
+    intros [o c'] w1 (HD1 & Hc1 & _). cbn [snd] in HD1. destruct o as [p|].
+    + apply wp_frame_bind; [apply frame_drop_pair | |].
+      * intros _ w2 Hs2.
+        eapply wp_mono; [apply IH; rewrite Hs2; exact HD1 | |]; cbn beta.
+        -- intros r w3 [H3 Hc3]. split; [exact H3 | congruence].
+        -- intros w3 [[H3 Hc3] Hl3]. split; [split; [exact H3 | congruence] | exact Hl3].
+      * intros w2 Hs2. apply DrainInv_zpost with (c := c'); rewrite Hs2; assumption.
+    + apply wp_ret. cbn [snd]. auto.
+Qed.
+
+Lemma keepsU_drain_nth_session (E : env key V query cstate) rp pre nk :
+  keepsU (drain_nth_session E rp pre nk).
+Proof.
+  intros w Hw Hu. unfold drain_nth_session. apply wp_bind.
+  eapply wp_mono; [apply drain_spec; exact Hw | |]; cbn beta;
+    [|intros w' Hs; apply invU_refl; auto].
+  intros c w1 (HD1 & Hc1 & _). apply wp_bind.
+  eapply wp_mono; [apply d_skip_spec; exact HD1 | |]; cbn beta; [|tauto].
+  intros c1 w2 [HD2 Hc2]. apply wp_bind.
+  eapply wp_mono; [apply d_nth_Z; exact HD2 | |]; cbn beta.
+  2:{ intros w3 [[Hw3 Hc3] Hl3]. apply zpost_invU. split; [split; [exact Hw3 | congruence] | exact Hl3]. }
+  intros [o c2] w3 [HD3 Hc3]. cbn [snd] in HD3. apply wp_bind.
+  eapply wp_mono; [apply drain_next_spec; exact HD3 | |]; cbn beta; [|tauto].
+  intros [o2 c3] w4 (HD4 & Hc4 & _). cbn [snd] in HD4. apply wp_bind.
+  eapply wp_mono; [apply drain_drop_spec with (c := c3); exact HD4 | |]; cbn beta.
+  - intros _ w5 (Hw5 & Hl5 & Hc5). apply wp_ret. apply zpost_invU.
+    split; [split; [exact Hw5 | congruence] | exact Hl5].
+  - intros w5 (Hw5 & Hl5 & Hc5). apply zpost_invU.
+    split; [split; [exact Hw5 | congruence] | exact Hl5].
+Qed.
+
+(* consuming iterators: the register holds a fresh container *)
+Lemma keepsU_op_into_nth (E : env key V query cstate)
+      (item : key * V -> M key V cstate (list N)) (rest : key * V -> M key V cstate unit) pre nk :
+  (forall p, frame (item p)) -> (forall p, frame (rest p)) ->
+  keepsU (c <- get_cap ;; old <- get_self ;; put_self (new_map c) ;;
+          '(body, _) <- swap_self old (into_nth_session E item rest pre nk) ;; ret body).
+Proof.
+  intros Hitem Hrest w Hw Hu. apply wp_bind. apply wp_get_cap. apply wp_bind. apply wp_get_self.
+  apply wp_bind. apply wp_put_self. apply wp_bind. apply wp_swap_self. simp_w.
+  eapply wp_mono; [apply (into_nth_session_safe item rest Hitem Hrest); simp_w; exact Hw | |]; cbn beta.
+  - intros body w2 _. apply wp_ret. apply detach_U. exact Hw.
+  - intros w2 _. apply detach_U. exact Hw.
+Qed.
+
+End UNth.
+
 (* ------------------------------------------------------------------ *)
 (* 7. running a computation on a register                              *)
 (* ------------------------------------------------------------------ *)
@@ -1511,6 +1604,14 @@ Proof.
     apply op_sub_stays; apply WFx_get_s; exact Hx.
   - (* SFormat *) apply run_s_U; [exact Hx | exact Hu|]. apply stays_keepsU. apply stays_format_s.
   - (* SSerde *) apply run_s_U; [exact Hx | exact Hu|]. apply keepsU_op_finally. apply keepsU_visit_seq. exact Hh.
+  - (* OIterNth *) apply run_m_U; [exact Hx | exact Hu|]. apply stays_keepsU. apply stays_iter_nth_session.
+  - (* ODrainNth *) apply run_m_U; [exact Hx | exact Hu|]. apply keepsU_drain_nth_session.
+  - (* OIntoNth *) apply run_m_U; [exact Hx | exact Hu|].
+    apply keepsU_op_into_nth; intros p; [apply frame_into_steps_item | apply frame_into_rest].
+  - (* SIterNth *) apply run_s_U; [exact Hx | exact Hu|]. apply stays_keepsU. apply stays_iter_nth_session.
+  - (* SDrainNth *) apply run_s_U; [exact Hx | exact Hu|]. apply keepsU_drain_nth_session.
+  - (* SIntoNth *) apply run_s_U; [exact Hx | exact Hu|].
+    apply keepsU_op_into_nth; intros p; [apply frame_ret | apply frame_drop_key].
   - (* OBad *) cbn [fst snd]. exact Hu.
 Qed.
 
